@@ -20,6 +20,7 @@ from . import gen, ref
 from .common import Sub, Violation, forked, lib
 
 ID = "C12"
+CGF = False   # statistical / repeat-call oracles on the C kernels; python byte-code coverage of the library adds no guidance
 RULE = ("repro: generated annealer calls (all functions / model kinds / schedules) with an integer seed, called twice. "
         "zerot: generated models with full initial state and explicit schedule [0]*k (k=1..4), both visiting orders, all four "
         "functions; plus tie-free Matrix instances (distinct power-of-two spin couplings, every index carries a term) whose final "
